@@ -8,6 +8,7 @@ open Pg Pg.C02
 partial def keyOfJ : J → Option Key
   | .str s => some (.s s)
   | .int i => some (.i i)
+  | .bool b => some (.b b)
   | _ => none
 
 partial def valOfJ : J → Option Val
@@ -17,6 +18,8 @@ partial def valOfJ : J → Option Val
   | .str s => some (.str s)
   | .arr xs => (xs.mapM valOfJ).map Val.list
   | .obj [("m", _)] => some .missing
+  | .obj [("f", .int i)] => some (.float i)
+  | .obj [("f", .str _)] => some .negzero
   | .obj [("d", .arr kvs)] =>
     (kvs.mapM fun (p : J) => match p with
       | J.arr [k, v] => do pure ((← keyOfJ k), (← valOfJ v))
@@ -30,6 +33,7 @@ def argOfJ : J → Option Arg
 def keyToJ : Key → J
   | .s n => .str n
   | .i j => .int j
+  | .b v => .bool v
 
 partial def valToJ : Val → J
   | .none => .null
@@ -37,6 +41,8 @@ partial def valToJ : Val → J
   | .int i => .int i
   | .str s => .str s
   | .missing => .obj [("m", .int 0)]
+  | .float i => .obj [("f", .int i)]
+  | .negzero => .obj [("f", .str "-0")]
   | .list xs => .arr (xs.map valToJ)
   | .dict kvs => .obj [("d", .arr (kvs.map fun (k, v) => .arr [keyToJ k, valToJ v]))]
 
@@ -85,7 +91,16 @@ def lopOfJ (j : J) : Option LStep := do
     | "pop" => ((j.get? "i").bind optIntOfJ).map LOp.pop
     | "remove" => v.map LOp.remove
     | "clear" => some .clear
-    | "sort" => (j.getBool? "rev").map LOp.sort
+    | "sort" => do
+      let key : SortKey ← match j.get? "key" with
+        | none => some .none
+        | some .null => some .none
+        | some (.str "len") => some .len
+        | some (.str "neg") => some .neg
+        | some (.str "abs") => some .abs
+        | some (.str "const") => some .const
+        | _ => none
+      pure (.sort (← j.getBool? "rev") key)
     | "reverse" => some .reverse
     | "iadd" => vs.map LOp.iadd
     | "imul" => (j.getInt? "n").map LOp.imul
